@@ -11,3 +11,7 @@ import PyIkev2.Props.C10
 #print axioms PyIkev2.Props.C10.c10_concrete_response_keeps_sad_equal_tracked
 #print axioms PyIkev2.Props.C10.c10_concrete_generators_keep_sad_equal_tracked
 #print axioms PyIkev2.Props.C10.c10_concrete_handover
+#print axioms PyIkev2.Props.C10.keysOfCore_eq
+#print axioms PyIkev2.Props.C10.c10_whole_model_start
+#print axioms PyIkev2.Props.C10.c10_whole_model_history_partial
+#print axioms PyIkev2.Props.C10.c10_whole_model_round_kernel
